@@ -308,9 +308,22 @@ def generate(rng: random.Random, tier: str) -> dict:
             dch = list(rng.choice([[45, 90], [5, 90], [14, 90]]))  # a destination chunk as wide as the world
     tch = rng.choice([1, max(tdim, 1)])
     src_irregular = None
-    if rng.random() < 0.12 and sny >= 4 and snx >= 4:
+    if rng.random() < 0.16 and sny >= 4 and snx >= 4:
         # explicit irregular chunk tuples, e.g. (5, 7, 3)
         def split(n):
+            if n >= 7 and rng.random() < 0.5:
+                # a regular chunking with one interior boundary moved: (4, 4, 4, 3) -> (4, 2, 6, 3).  Sums and offsets
+                # of such tuples coincide with those of the regular one at most places, which is where shortcuts for
+                # "evenly sized" tilings that test a necessary condition only go wrong (c13r)
+                c = rng.randint(2, max(2, n // 3))
+                k = n // c
+                chunks = [c] * k + ([n - k * c] if n % c else [])
+                if len(chunks) >= 3:
+                    i = rng.randrange(0 if len(chunks) == 3 else 1, len(chunks) - 2) if rng.random() < 0.8 else 0
+                    d = rng.randint(1, c - 1) if c > 1 else 0
+                    if d and chunks[i] - d >= 1:
+                        chunks[i], chunks[i + 1] = chunks[i] - d, chunks[i + 1] + d
+                        return chunks
             cuts = sorted(rng.sample(range(1, n), min(n - 1, rng.choice([1, 2, 3]))))
             return [b - a for a, b in zip([0] + cuts, cuts + [n])]
 
